@@ -15,6 +15,7 @@ CONSTANTS
   MaxExtends = %d
   SelMenu = {%s}
   Targets = {%s}
+  MediaMenu = {%s}
 INVARIANTS CreditMonotone Emit
 CHECK_DEADLOCK FALSE
 """
@@ -34,17 +35,21 @@ def run(ctx):
     # focused plans are run whole; the broad plans are sampled in the quick tier
     focused = [(3, 1, [".y:not(.x)", "b:not(.x)", ":is(.x, b)", "b", ".y"], [".x"]),             # the same pseudo in several rules
                (3, 2, [".x", "a ~ .y", "a + .y", "b"], [".x"]),                                    # sibling extenders, no weaving
-               (3, 2, [".x", "a.x", "%p", "b"], [".x", "%p"])]                                     # chains / order
+               (3, 2, [".x", "a.x", "%p", "b"], [".x", "%p"]),                                     # chains / order
+               (2, 1, [".x", "a.x", "b", "%p"], [".x", "%p"], ["", "screen", "print"])]            # @extend and @media blocks
     broad = [(3, 2, [".x", "a.x", "a .x", "%p", ".y:not(.x)", "b"], [".x", ".y", "%p"]),
              (2, 2, [".x", ".y", "a.x", "b.y", "a .x", ".x > b", "a ~ .y", ".y + .x", "b %p", ".x .y", ".y:not(.x)", ":is(.x, b)",
                      "b:not(.x)", ".x, b.y", "a.x .y", "a:not(.x)", "%p"], [".x", ".y", "%p", ".zz"])]
     if thorough:
+        focused.append((3, 1, [".x", "a.x", "b"], [".x"], ["", "screen", "print"]))
         broad.append((3, 3, [".x", ".y", "a.x", "a .x", ".x > b", "a ~ .y", "a + .y", ".y + .x", ".y:not(.x)", ":is(.x, b)", "%p", "b %p"], [".x", ".y", "%p"]))
 
     def gen(plans):
         out = []
-        for mr, me, menu, targets in plans:
-            r = C.tlc("MC_Extend", cfg_text=CFG % (mr, me, q(menu), q(targets)), workers=8, timeout=3000)
+        for plan in plans:
+            mr, me, menu, targets = plan[:4]
+            medias = plan[4] if len(plan) > 4 else [""]
+            r = C.tlc("MC_Extend", cfg_text=CFG % (mr, me, q(menu), q(targets), q(medias)), workers=8, timeout=3000)
             C.tlc_must_pass(r, "MC_Extend")
             ctx.add_tlc(r)
             out.extend(r.cases)
@@ -80,6 +85,11 @@ def run(ctx):
             if oc not in ("css", "error"):
                 ctx.violation("@extend did not terminate normally: %s" % (x.get("panic") or oc), {"src": j["src"], "outcome": oc, "class": "crash"})
                 continue
+            if c["crossmedia"]:
+                if oc != "error":
+                    ctx.violation("an @extend inside @media reached (or ignored) a rule outside that @media block instead of failing",
+                                  {"src": j["src"], "deviation": "D_extend_across_media", "css": x.get("css")})
+                continue
             if c["missing"]:
                 if oc != "error":
                     ctx.violation("extending a missing target without !optional must be an error",
@@ -102,7 +112,9 @@ def run(ctx):
                 ctx.violation("emitted selector could not be read: %s" % e, {"src": j["src"], "css": x["css"]})
                 continue
             for i, sel in enumerate(c["sels"]):
-                e = {"sel": sel, "exts": c["exts"], "compoundonly": c["compoundonly"],
+                # extensions that can reach this rule: top-level ones and those of its own @media block
+                exts = [{"extender": t["extender"], "target": t["target"]} for t in c["exts"] if t["media"] in ("", c["medias"][i])]
+                e = {"sel": sel, "exts": exts, "compoundonly": c["compoundonly"],
                      "gone": (i + 1) not in outsel, "out": outsel.get(i + 1, [])}
                 key = json.dumps(e, sort_keys=True)
                 nrules += 1
@@ -125,4 +137,4 @@ def run(ctx):
     ctx.sample({"scss": cases[0]["scss"], "css": res[0].get("css")})
     os.remove(tpath)
     ctx.assumptions += ["same DOM universe and alphabet as C11; complex extenders are only required to match a subset (Sass omits interleavings)",
-                        "specificity (second law) and @media scoping are not judged by this check"]
+                        "specificity (second law) is not judged by this check; @media scoping is judged for sheets with one @extend (no chains through @media)"]
